@@ -43,6 +43,9 @@ func WithHistogramDataPointAttributes(attrs Map) func(HistogramDataPoint) {
 func WithHistogramDataPointStatistics(values []float64) func(HistogramDataPoint) {
 	return func(hdp HistogramDataPoint) {
 		hdp.raw.Sum = new(float64)
+		if len(values) == 0 { // a persisted timer with no new data
+			return
+		}
 		hdp.raw.Min = &values[0]
 		hdp.raw.Max = &values[len(values)-1]
 		hdp.raw.Count = uint64(len(values))
